@@ -29,7 +29,7 @@ def units(tier):
     return paint.units() + walk.units() + bookkeeping.units() + primitives.invert_units() + groups.units() + useractions.units(UA_ALL, {"lineage_inv": True}) + primitives.units()
 
 
-def bounded(tier, seed):
+def _bounded(tier, seed):
     from pyvc.native_bridge import bounded_paint, bounded_walk
     return [bounded_walk(tier, "walk", "walk", "real _handle_update_track_ids vs contract K1 (the inverse walk covers the same set)"),
             bounded_paint(tier, "C01", "paint-driven UserUpdateSegmentation (not under contract): undo restores the canonical state exactly, redo re-applies it")]
@@ -38,3 +38,8 @@ def bounded(tier, seed):
 def witness(label, failure, seed):
     from pyvc.native_bridge import tracks_witness
     return tracks_witness("C01", label, failure, seed)
+
+
+def bounded(tier, seed):
+    from ._common import model_checks
+    return _bounded(tier, seed) + model_checks(tier, "networkx", shape=True, seed=seed)
